@@ -87,6 +87,13 @@ func (r *Run) Thorough() bool { return r.Tier == "thorough" }
 // Expired reports whether the internal horizon passed; callers stop enumerating and the run is
 // reported as not exhaustive.
 func (r *Run) Expired() bool {
+	r.mu.Lock()
+	v := r.violations
+	r.mu.Unlock()
+	if v >= 10 {
+		r.Cap("stopped after 10 distinct violations")
+		return true
+	}
 	if r.deadline.IsZero() || time.Now().Before(r.deadline) {
 		return false
 	}
